@@ -29,6 +29,8 @@ TIERS = {
     "quick": {"runs": 1200, "budget_s": 480, "det_pairs": 3},
     "thorough": {"runs": 100000, "budget_s": 1800, "det_pairs": 6},
 }
+SIM_TIME_NOTE = ("virtual clock (time.time / time.sleep of the system's process are simulated): simulated_time_s is the time the system spent "
+                 "waiting; the unchanged tree never sleeps, so it is 0 unless a changed tree retries or backs off")
 RUN_TIMEOUT = 900
 SHRINK_BUDGET = 60
 RULE = (
@@ -475,6 +477,7 @@ def _exec_step(W, st, model, log, stats, bump, seed):
     fresh = not any(k.startswith(LABEL + c) and "_trial/" not in k for k in before for c in "abcd") and not any(".lf." in k and "_trial/" not in k for k in before)
     res = session.run_step(W.root, do_step, st, fault, W.cfg, pool_seed, pre=instrument)
     stats["steps"] += len(res["events"])
+    stats["sim_time"] = stats.get("sim_time", 0.0) + float(res.get("clock") or 0.0)      # simulated seconds the system spent sleeping / waiting
     stats.setdefault("_step_events", []).append(res["events"])
     after = snapshot(W.root)
     fired = res["fired"] if res["fired"] and res["fired"]["kind"] in ("kill", "torn", "io_error", "corrupt", "interrupt", "short") else None
